@@ -30,10 +30,15 @@ type c04case struct {
 	Fail   string // exit bad-metrics bad-patch unappliable-patch
 	AFk    bool   // allowFailure of the kubernetes binding kb
 	AFs    bool   // allowFailure of the schedule binding s1
+	Twin   bool   // a second schedule binding with the SAME name, another crontab and allowFailure true, declared first
 }
 
 func (c c04case) String() string {
-	return fmt.Sprintf("%s/k=%d/%s/AFk=%v/AFs=%v", c.Target, c.K, c.Fail, c.AFk, c.AFs)
+	s := fmt.Sprintf("%s/k=%d/%s/AFk=%v/AFs=%v", c.Target, c.K, c.Fail, c.AFk, c.AFs)
+	if c.Twin {
+		s += "/same-named-lax-twin"
+	}
+	return s
 }
 
 func c04hookA(c c04case) string {
@@ -43,6 +48,11 @@ func c04hookA(c c04case) string {
 		// Synchronization run they would execute at once instead of queueing behind it
 		q = "\n  queue: q2"
 	}
+	twin := ""
+	if c.Twin {
+		// binding names need not be unique: every binding keeps its own allowFailure
+		twin = "\n- name: s1\n  crontab: \"*/5 * * * *\"\n  allowFailure: true"
+	}
 	return fmt.Sprintf(`configVersion: v1
 onStartup: 1
 kubernetes:
@@ -50,7 +60,7 @@ kubernetes:
   kind: ConfigMap
   namespace: {nameSelector: {matchNames: [n1]}}`+q+`
   allowFailure: %v
-schedule:
+schedule:`+twin+`
 - name: s1
   crontab: "* * * * *"
   allowFailure: %v
@@ -385,7 +395,10 @@ func TestVerifC04(t *testing.T) {
 						if target == "Schedule" && afk {
 							continue
 						}
-						cases = append(cases, c04case{target, k, f, afk, afs})
+						cases = append(cases, c04case{target, k, f, afk, afs, false})
+						if target == "Schedule" && f == "exit" && k <= 2 {
+							cases = append(cases, c04case{target, k, f, afk, afs, true})
+						}
 					}
 				}
 			}
